@@ -132,3 +132,17 @@ Theorem C16_rendered_file_refuted_subdir : g_index_top_level_only = false ->
 Proof. exact subdir_name_refuted. Qed.
 Print Assumptions C16_rendered_file_refuted_subdir.
 
+
+(* ---- before fix 52035ba (the walk continued past pydsdl.Any; F-LOOKUP-CHAIN-PAST-ANY) ---- *)
+(* (A5''') the chain ENDS AT pydsdl.Any (property text).  The code walks on to the bases of Any (abc.ABC) unless the walk stops at Any
+   -- a fact regenerated from /repo (g_chain_ends_at_any; design_notes/C16_chain_ends_at_any_fix.patch).  As long as it does not,
+   a user ABC.j2 is chosen and rendered for every type (finding F-LOOKUP-CHAIN-PAST-ANY): *)
+Theorem C16_chain_past_any_refuted : g_chain_ends_at_any = false ->
+  chain_end_ok = false /\
+  exists abc, p_name abc = [65; 66; 67] /\
+    p_rendered_seq false FIND_FIRST (Some [[p_exact_name abc]]) None [g_cls_StructureType] = [Rendered (OUserDir 0) (p_exact_name abc)] /\
+    p_spec_rendered FIND_FIRST (Some [[p_exact_name abc]]) None g_cls_StructureType = NoTemplate /\
+    isinst p_bases p_fuel abc g_cls_Any = false.
+Proof. exact chain_past_any_refuted. Qed.
+Print Assumptions C16_chain_past_any_refuted.
+
